@@ -227,6 +227,9 @@ def sliceWrite (dst data : Bytes) : Res Bytes :=
 /-- `u64` addition / multiplication with overflow checks (dev profile) -/
 def addU64 (a b : Nat) (site : String) : Res Nat := if a + b ≥ 2 ^ 64 then .panic site else .ok (a + b)
 def mulU64 (a b : Nat) (site : String) : Res Nat := if a * b ≥ 2 ^ 64 then .panic site else .ok (a * b)
+/-- `s.as_bytes()` of a `&str` -/
+def strBytes (s : String) : Bytes := s.toUTF8.toList
+
 /-- a `SystemTime` at or after the Unix epoch / the `Duration` since the epoch: whole seconds and nanoseconds -/
 structure Time where
   secs : Nat
